@@ -245,8 +245,14 @@ class Validator:
                             continue
                         break
         # 3. run
-        irres = run_parallel(self.irx, ircases, self.workers)
-        glres = run_parallel(self.glx, glcases, self.workers)
+        if self.workers > 2:           # (generated family: both interpreters at the same time)
+            with ThreadPoolExecutor(2) as ex:
+                fa = ex.submit(run_parallel, self.irx, ircases, self.workers)
+                fb = ex.submit(run_parallel, self.glx, glcases, self.workers)
+                irres, glres = fa.result(), fb.result()
+        else:
+            irres = run_parallel(self.irx, ircases, self.workers)
+            glres = run_parallel(self.glx, glcases, self.workers)
         for m, g in zip(glmeta, glres):
             self.judge(m, irres[irkeys[m["ik"]]], g)
 
@@ -384,7 +390,7 @@ class Validator:
 GEN_OPTS = {"avoid": ("countLeadingZeros", "countTrailingZeros", "abs:u32"), "vec_select_cond": False,
             "safe_int_div": True, "ordered_int_clamp": True}
 
-GEN_QUICK, GEN_THOROUGH = 120, 2500
+GEN_QUICK, GEN_THOROUGH = 400, 3000
 
 
 def avoid_recorded_findings(prog):
